@@ -2,10 +2,10 @@
     behaviour of the req/rep router model (any numbers of requestors and repliers, any
     registration order, any Ready/Pending/Err answers, any frames incl. forged routing tags,
     any HashMap / StreamMap iteration order).
-    PARTIAL: one clause remains an executable predicate evaluated on every implementation trace
-    and on the model state (ReqRepSpec.c02_state_ok), not a theorem: "a discarded reply never
-    deserved a still-connected requestor".  Liveness of delivery (a bound replier is eventually
-    offered the buffered request) is checked on drained traces (obs_no_request_stranded). *)
+    Every clause of the property is a theorem below.  Liveness (a bound replier is eventually
+    offered the buffered request; deserved replies are eventually delivered and flushed) is not:
+    it is checked on drained implementation traces (obs_no_request_stranded,
+    obs_replies_delivered, obs_requests_flushed). *)
 Require Import Selium.Base Selium.PubSub Selium.ReqRep Selium.ReqRepSpec Selium.P_ReqRep Selium.P_ReqRepOrder.
 Open Scope N_scope.
 
@@ -58,6 +58,15 @@ Theorem c02_never_superseded_while_bound : forall tr s, rrun rinit tr = Some s -
   forall srv m, In (srv, m) (h_reqs_dropped (rgh s)) -> srv = None.
 Proof. exact rr_never_superseded_while_bound. Qed.
 Print Assumptions c02_never_superseded_while_bound.
+
+(** a reply is discarded only when its routing tag is missing or malformed, names a key that had
+    not been issued when the reply was emitted ([snd fn] is the next key at that moment), or names
+    a requestor whose sink is no longer registered with the router: no reply emitted for a
+    still-connected requestor is ever discarded *)
+Theorem c02_discarded_replies_deserved_no_live_requestor : forall tr s, rrun rinit tr = Some s ->
+  forall fn, In fn (h_reps_discarded (rgh s)) -> discard_justified s fn.
+Proof. exact rr_discards_justified. Qed.
+Print Assumptions c02_discarded_replies_deserved_no_live_requestor.
 
 (** Non-vacuity: a slow requestor, two replies, a forged tag *)
 Example c02_example :
